@@ -343,6 +343,14 @@ def uninit_cases(rng, n):
         cab = cabfmt.build_cab([(3 | (wb << 8), [(stream[:cut], 32768), (stream[cut:], total - 32768)])], [(b"x.bin", total, 0, 0, 0x5A21, 0x6C43, 0x20)])
         sc = scenario.Scn().file("in0.cab", cab); cab_ops(sc, 1, 4); out.append(Case("uninit:lzx-frame2-match", "cab", sc))
     for i in range(n):
+        # KWAJ LZH: the stream ends inside one code-length list (the other lists are of the fixed type, which reads nothing): the table
+        # for that list is built from whatever the length array held
+        k = rng.randrange(5); b = BitsMSB()
+        for j in range(6): b.bits(rng.choice([1, 2, 3]) if j == k else 0, 4)
+        for _ in range(rng.choice([0, 0, 1, 2, 5])): b.bits(rng.choice([0x44, 0x55, 0x88, rng.randrange(256)]), 8)
+        kw = kwajfmt.kwaj(3, b.done(), 0)
+        sc = scenario.Scn().file("in0.kwj", kw); fmt_ops("kwaj", sc); out.append(Case("uninit:kwaj-lzh-short-lens", "kwaj", sc))
+    for i in range(n):
         b = BitsMSB()
         types = [rng.choice([0, 1, 2, 3, 4, 7, 15]) for _ in range(6)]
         if all(t < 4 for t in types[:5]): types[rng.randrange(5)] = rng.randrange(4, 16)
